@@ -355,7 +355,7 @@ static void perform_francis_qr_step(SC *S, Index il, Index im, Index iu, Scalar 
            ("sub", r"m_T\.coeffRef\(iu, iu - 1\) = Scalar\(0\);", "(void)MAT_ELEM(&S->m_T, iu, iu - 1);", {"max": 1}),
            ("split", r"split_off_two_rows\(iu, ex_shift\);", "split_off_two_rows(S, iu, &ex_shift);", {"max": 1}),
            ("vec3", r"Vector3s first_householder_vec = Vector3s::Zero\(\), shift_info;", "Scalar first_householder_vec[3] = {0, 0, 0}, shift_info[3];", {"max": 1}),
-           ("cshift", r"compute_shift\(iu, iter, ex_shift, shift_info\);", "compute_shift(S, iu, iter, &ex_shift, shift_info);", {"max": 1}),
+           ("cshift", r"compute_shift\((?:\w+, )*iu, iter, ex_shift, shift_info\);", "compute_shift(S, iu, iter, &ex_shift, shift_info);", {"max": 1}),
            ("init", r"init_francis_qr_step\(il, iu, shift_info, im, first_householder_vec\);", "init_francis_qr_step(S, il, iu, shift_info, &im, first_householder_vec);", {"max": 1}),
            ("perform", r"perform_francis_qr_step\(il, im, iu, first_householder_vec, near_0\);", "perform_francis_qr_step(S, il, im, iu, first_householder_vec, near_0);", {"max": 1}),
            ("done", r"m_computed = true;", "g_all_reduced = (norm == (Scalar)0) || (iu < 0); m_computed = true;", {"max": 1})]
@@ -497,7 +497,12 @@ typedef struct { Scalar m_c, m_s; } Jacobi;
     out.append(("schur.split_off_two_rows", types + t + sp.harness("h", alloc + "  Index iu = nondet_Index(); Scalar ex_shift = nondet_Scalar();", "S, iu, ex_shift"), "split_off_two_rows", ["Eigen index assertion", "applyOnThe"]))
     # compute_shift
     f = X.locate(SH, "compute_shift", cls="UpperHessenbergSchur")
-    sp = FSpec("compute_shift", "void", [("SC *", "S"), ("Index", "iu"), ("Index", "iter"), ("Scalar *", "ex_shift"), ("Scalar *", "shift_info")],
+    # window parameters added in front of iu (e.g. the lower end il of the active window): accepted, arbitrary in 0..iu; the group is then WEAK
+    pnames = [a.split()[-1].lstrip("&") for a in X.split_top(f.params)]
+    if pnames[-4:] != ["iu", "iter", "ex_shift", "shift_info"] or any(not re.match(r"^\s*(?:const\s+)?Index\s+\w+$", a) for a in X.split_top(f.params)[:-4]):
+        raise X.ExtractionBreak("compute_shift: parameter list changed: %r" % f.params)
+    cs_extra = pnames[:-4]
+    sp = FSpec("compute_shift", "void", [("SC *", "S")] + [("Index", e) for e in cs_extra] + [("Index", "iu"), ("Index", "iter"), ("Scalar *", "ex_shift"), ("Scalar *", "shift_info")],
                pre=inv + [("2 <= iu < n (the window has at least three rows: T(iu-1, iu-2) is read)", "2 <= iu && iu < S->m_n"), ("three-entry shift vector", "VEC_SIZE(shift_info) == 3"), ("Skolem", "0 <= g_q && g_q <= NMAXS")],
                post=[("an exceptional shift is subtracted from EVERY diagonal entry of rows 0..iu (the whole leading block), or from none",
                       "g_shifted_n == 0 || g_shifted_n == iu + 1")],
@@ -506,19 +511,26 @@ typedef struct { Scalar m_c, m_s; } Jacobi;
                      pre_rules=[("diag-sub", r"m_T\.coeffRef\(i, i\) -= ([^;]+);", r"{ T_(i, i) -= \1; g_shifted_n++; }", {"min": 0, "max": 2}),
                                 # the same update written as an Eigen expression over the leading diagonal entries
                                 ("diag-sub-eigen", r"m_T\.diagonal\(\)\.head\(([^;()]+)\)(?:\.array\(\))? -= ([^;]+);",
-                                 r"{ __CPROVER_assert(0 <= (\1) && (\1) <= S->m_T.rows, @Q@Eigen block assertion: diagonal().head(n) within the diagonal@Q@); g_shifted_n += (\1); MAT_TOUCH(S->m_T); }", {"min": 0, "max": 2}), coeff,
+                                 r"{ __CPROVER_assert(0 <= (\1) && (\1) <= S->m_T.rows, @Q@Eigen block assertion: diagonal().head(n) within the diagonal@Q@); g_shifted_n += (\1); MAT_TOUCH(S->m_T); }", {"min": 0, "max": 2}),
+                                ("diag-sub-segment", r"m_T\.diagonal\(\)\.segment\(([^;()]+), ([^;()]+)\)(?:\.array\(\))? -= ([^;]+);",
+                                 r"{ __CPROVER_assert(0 <= (\1) && 0 <= (\2) && (\1) + (\2) <= S->m_T.rows, @Q@Eigen block assertion: diagonal().segment(i, n) within the diagonal@Q@); "
+                                 r"__CPROVER_assert((\1) == 0, @Q@an exceptional shift is subtracted from EVERY diagonal entry of rows 0..iu: the update starts at row 0@Q@); g_shifted_n += (\2); MAT_TOUCH(S->m_T); }", {"min": 0, "max": 2}), coeff,
                                 ("si", r"shift_info\.coeff(?:Ref)?\((\d)\)", r"shift_info[\1]", {"min": 6}),
                                 ("setc", r"shift_info\.setConstant\(([^;]+)\);", r"shift_info[0] = (\1); shift_info[1] = (\1); shift_info[2] = (\1);", {"max": 1})],
                      loop_contracts={k: v for k, v in {0: "__CPROVER_assigns(i, S->m_T.cell, g_shifted_n) __CPROVER_loop_invariant(0 <= i && i <= iu + 1 && g_shifted_n == i) __CPROVER_decreases(iu + 1 - i)",
                                      1: "__CPROVER_assigns(i, S->m_T.cell, g_shifted_n) __CPROVER_loop_invariant(0 <= i && i <= iu + 1 && g_shifted_n == base_n + i) __CPROVER_decreases(iu + 1 - i)"}.items()
                                      if k < len(re.findall(r"\bfor\s*\(", f.body))},
                      contract=sp.frame_contract(["iter != 10 || 1"]), pre_body=" g_shifted_n = 0;")
-    if R.fired.get("pre:diag-sub", 0) + R.fired.get("pre:diag-sub-eigen", 0) != 2:
-        raise X.ExtractionBreak("compute_shift: expected two exceptional-shift updates of the diagonal, found %d" % (R.fired.get("pre:diag-sub", 0) + R.fired.get("pre:diag-sub-eigen", 0)))
+    n_upd = R.fired.get("pre:diag-sub", 0) + R.fired.get("pre:diag-sub-eigen", 0) + R.fired.get("pre:diag-sub-segment", 0)
+    if n_upd != 2:
+        raise X.ExtractionBreak("compute_shift: expected two exceptional-shift updates of the diagonal, found %d" % n_upd)
     t = t.replace("if (iter == 30)", "const Index base_n = g_shifted_n; if (iter == 30)")
     report["UpperHessenbergSchur::compute_shift"] = R.fired
-    out.append(("schur.compute_shift", "Index g_shifted_n;\n" + types + t + sp.harness("h", alloc + "  Index iu = nondet_Index(), iter = nondet_Index(); Scalar ex = nondet_Scalar(); Scalar *ex_shift = &ex; Scalar *shift_info = VEC_NEW(3);",
-                                                                              "S, iu, iter, ex_shift, shift_info", pre_assume=["iter != 10 || iter != 30"]), "compute_shift", ["Eigen index assertion", "exceptional shift"]))
+    out.append(("schur.compute_shift", "Index g_shifted_n;\n" + types + t + sp.harness("h", alloc + "  Index iu = nondet_Index(), iter = nondet_Index(); Scalar ex = nondet_Scalar(); Scalar *ex_shift = &ex; Scalar *shift_info = VEC_NEW(3);" +
+                                                                              "".join(" Index %s = nondet_Index();" % e for e in cs_extra),
+                                                                              "S, " + "".join(e + ", " for e in cs_extra) + "iu, iter, ex_shift, shift_info",
+                                                                              pre_assume=["iter != 10 || iter != 30"] + ["0 <= %s && %s <= iu" % (e, e) for e in cs_extra]), "compute_shift", ["Eigen index assertion", "exceptional shift"]))
+    cs_weak = ("compute_shift has extra window parameter(s) %s, taken as arbitrary in 0..iu: a refutation counts only if it replays on the real code" % ", ".join(cs_extra)) if cs_extra else None
     # init_francis_qr_step
     f = X.locate(SH, "init_francis_qr_step", cls="UpperHessenbergSchur")
     sp = FSpec("init_francis_qr_step", "void", [("SC *", "S"), ("Index", "il"), ("Index", "iu"), ("const Scalar *", "shift_info"), ("Index *", "im"), ("Scalar *", "first_householder_vec")],
@@ -579,6 +591,8 @@ static void HH_RIGHT(Mat *M, Index r0, Index c0, Index nrow, Index stride)
     for name, text, enf, exp in out:
         groups.append(Group(name, BASE + text, "h", enforce=enf, solver="cadical", defines=["SCALAR_DOUBLE"], timeout=600, functions=[SH + ":" + enf], expect_classes=exp,
                             note="unbounded in n: proves the index contract that schur.compute assumes for this helper (matrix entries nondeterministic)"))
+        if name == "schur.compute_shift" and cs_weak:
+            groups[-1].weak = cs_weak
     return groups
 
 
